@@ -1868,6 +1868,7 @@ where
         for (s, linked) in me.store.verif_streams() {
             let mut v: Vec<(&'static str, i64)> = Vec::new();
             v.push(("id", u32::from(s.id) as i64));
+            v.push(("serial", s.verif_serial));
             v.push(("linked", linked as i64));
             v.push(("is_counted", s.is_counted as i64));
             v.push(("ref_count", s.ref_count as i64));
